@@ -386,15 +386,26 @@ fn run_on<I: Interface + 'static>(sim: &Sim, prop: &str, tier: Tier, kind: LinkK
         None
     };
 
+    // device position of A's receive side after A's last tick: if it moves between ticks, A's
+    // link object takes input outside try_get_packet (e.g. its send path parks received bytes
+    // while the transmitter is busy) and may hold complete replies internally
+    let a_cursor = std::cell::Cell::new(0usize);
+    let a_takes_input_outside_ticks = std::cell::Cell::new(false);
     let mut do_tick = |who: &'static str, n: &mut Protocol<'static, I>, sent: usize| -> Option<Outcome> {
         {
             let w = if who == "A" { &ba } else { &ab };
+            if who == "A" && w.borrow().cursor != a_cursor.get() {
+                a_takes_input_outside_ticks.set(true);
+            }
             w.borrow_mut().begin_poll();
         }
         let r = sut(|| n.tick());
         {
             let w = if who == "A" { &ba } else { &ab };
             w.borrow_mut().end_poll();
+            if who == "A" {
+                a_cursor.set(w.borrow().cursor);
+            }
         }
         sim.event(EV_APP, 40 + (who == "A") as u64, matches!(r, Ok(Ok(()))) as u64, || format!("{}.tick -> {}", who, show_tick(&r)));
         match &r {
@@ -436,7 +447,13 @@ fn run_on<I: Interface + 'static>(sim: &Sim, prop: &str, tier: Tier, kind: LinkK
                 // call lasts (reads at frame boundaries are answered "no data yet"), so the
                 // exchange consumes no reply and times out; a reply that A has received half of
                 // must still be completed and delivered by later ticks.
-                let as_exchange = acking && !crate::link_hostile::reads_ahead(kind) && sim.chance(20);
+                if ba.borrow().cursor != a_cursor.get() {
+                    a_takes_input_outside_ticks.set(true);
+                }
+                // (not for link objects that buffer input internally - read-ahead, established by
+                // calibration, or input taken outside ticks, seen above: an exchange would
+                // legitimately consume replies that sit in such a buffer)
+                let as_exchange = acking && !crate::link_hostile::reads_ahead(kind) && !a_takes_input_outside_ticks.get() && sim.chance(20);
                 let r = if as_exchange {
                     sim.event(EV_APP, 43, hash_packet(p), || format!("A.exchange_packet::<Ack>({}) [nothing new arrives at A during the call]", show_packet(p)));
                     sim.probe("event_sent_as_exchange_request");
